@@ -26,7 +26,8 @@ CONSTANTS Opcodes,    \* subset of {0, 4, 5}
           MaxSel,     \* max_size of the low-level renderer (small values force rollbacks)
           OptIdx,     \* subset of 0..Len(OptMenu): 0 = no extra option, i = append OptMenu[i] to the OPT
           SecSel,     \* sections record sets may go to (subset of 1..3)
-          QuestionSel \* subset of BOOLEAN: TRUE = a question may be added
+          QuestionSel,\* subset of BOOLEAN: TRUE = a question may be added
+          QMax        \* questions per message (RFC 1035 allows QDCOUNT > 1)
 VARIABLE hist
 TtlOne == {<<0, 300>>}
 TtlMany == {<<0, 300>>, <<0, 0>>, <<32767, 65535>>}
@@ -35,7 +36,10 @@ gvars == <<st, hist>>
 lex == <<101, 120>>  lEX == <<69, 88>>  la == <<97>>  lA == <<65>>  lb == <<98>>
 lother == <<111, 116, 104, 101, 114>>
 UName(i) == CASE i = 1 -> <<lex>> [] i = 2 -> <<la, lex>> [] i = 3 -> <<lb, la, lex>>
-              [] i = 4 -> <<lA, lEX>> [] i = 5 -> <<lother>> [] OTHER -> <<>>
+              [] i = 4 -> <<lA, lEX>> [] i = 5 -> <<lother>>
+              \* 7..9: long names without common suffixes (4 labels of 60 octets = 245 octets on the wire)
+              [] i \in 7..9 -> [j \in 1..4 |-> Fill(60, 96 + 4 * (i - 7) + j)]
+              [] OTHER -> <<>>
 Owners == {UName(i) : i \in NameSel}
 Targets == {UName(i) : i \in TargetSel}
 
@@ -103,10 +107,12 @@ GInit ==
          IN hist = <<h>> /\ RInit(id, HdrFlags(h), mx)
 
 GQuestion ==
-    /\ Len(hist) = 1 /\ (TRUE \in QuestionSel \/ Hdr.opcode = OpUpdate)
+    /\ Len(hist) <= (IF Hdr.opcode = OpUpdate THEN 1 ELSE QMax) /\ hist[Len(hist)].op \in {"hdr", "q"}
+    /\ (TRUE \in QuestionSel \/ Hdr.opcode = OpUpdate)
     /\ \E q \in (IF Hdr.opcode = OpUpdate THEN {[name |-> UName(1), type |-> TySOA, cls |-> Hdr.zcls]}
                  ELSE {[name |-> n, type |-> TyA, cls |-> ClsIN] : n \in Owners \ (IF Hdr.origin THEN {UName(4)} ELSE {})}) :
-         AddQuestion(q) /\ H([op |-> "q", name |-> q.name, type |-> q.type, cls |-> q.cls])
+         /\ \A i \in 1..Len(st.qs) : ~NameEqCI(st.qs[i].name, q.name)      \* distinct questions
+         /\ AddQuestion(q) /\ H([op |-> "q", name |-> q.name, type |-> q.type, cls |-> q.cls])
 
 GRec ==
     /\ NRecs < MaxRecs /\ hist[Len(hist)].op # "end"
